@@ -12,6 +12,9 @@ type ChunkReader struct {
 	Sizes []int
 	i     int
 	Pos   int
+	// EOFWithData: the read that delivers the last bytes also returns io.EOF (as io.Reader allows and e.g.
+	// a closing network connection or iotest.DataErrReader does), instead of reporting EOF in a read of its own
+	EOFWithData bool
 }
 
 func (c *ChunkReader) Read(p []byte) (int, error) {
@@ -37,6 +40,9 @@ func (c *ChunkReader) Read(p []byte) (int, error) {
 	}
 	copy(p, c.Data[c.Pos:c.Pos+n])
 	c.Pos += n
+	if c.EOFWithData && c.Pos >= len(c.Data) {
+		return n, io.EOF
+	}
 	return n, nil
 }
 
